@@ -10,9 +10,13 @@
 //!   * cache monitor: a long-lived linter (warm cache) answers like a fresh one,
 //!   * edit corollary: replacing D by D' leaves the lints inside P untouched; replacing P by P' moves the
 //!                    lints of D by the length change and nothing else.
-//! Correspondence (tie of Model/ParaSplit.v): extracted iter_chunks / iter_sentences / iter_paragraphs /
-//! hull / split_point vs the TokenStringExt methods on real Document token lists and on synthetic kind
-//! sequences (thorough: every sequence of <= 7 kind classes).
+//!   * seam stream  : D starting with newlines (the cut lies inside a maximal newline run): the relation is
+//!                    evaluated on the pair cut behind the run (class `lints`) and on the literal cut (class
+//!                    `lints_seam`, known finding FC12seam).
+//! Correspondence (tie of Model/ParaSplit.v): extracted iter_chunks / iter_sentences / iter_paragraphs / hull
+//! vs the TokenStringExt methods on real Document token lists and on synthetic kind sequences (thorough: every
+//! sequence of <= 6 kind classes over 7), and extracted LintGroup::lint (cache carried over) vs a real
+//! LintGroup with two transparent rules.
 use harper_core::linting::{Lint, LintGroup, Linter, PatternLinter};
 use harper_core::parsers::{Parser, PlainEnglish};
 use harper_core::patterns::{Pattern, SequencePattern};
@@ -770,7 +774,7 @@ fn synth_case(rep: &mut Report, classes: &[char], zero_width: bool) {
 
 pub fn run(a: &Args, corpus: &[Value]) {
     let mut rep = Report::new(&a.out);
-    rep.rule = "pairs (P, D): P = 1-3 generated sentences (hv::gen vocabulary: triggers, misspellings, numbers, abbreviations) with forced contractions / initialisms / ellipses / number suffixes / URLs / e-mail addresses / multi-byte words at start, middle and end, double quotes removed, closed by . ! ? + blank line; D = generated documents, placed constructs, malformed text, leading newlines, quotes, digits, @, empty and one-character texts. Each pair: token-level relation (lexer, then Document), lint-level multiset relation with all rules on (fresh linters), warm-cache monitor; plus edit triples (P,D,P',D'). non-trivial = distinct pair with >=1 lint in P and >=1 lint in D. Correspondence: iterators/hull of the model vs TokenStringExt on the Document tokens of every pair and on synthetic kind sequences".into();
+    rep.rule = "pairs (P, D): P = 1-3 generated sentences (hv::gen vocabulary: triggers, misspellings, numbers, abbreviations) with forced contractions / initialisms / ellipses / number suffixes / URLs / e-mail addresses / multi-byte words at start, middle and end, double quotes removed, closed by . ! ? + blank line; D = generated documents, placed constructs, malformed text, leading newlines, quotes, digits, @, empty and one-character texts. Each pair: token-level relation (lexer, then Document), lint-level multiset relation with all rules on (fresh linters), warm-cache monitor; stream `seam`: D = newline run + number/currency/trigger/contraction/abbreviation + text (relation checked behind the run and at the literal cut); plus edit triples (P,D,P',D'). non-trivial = distinct pair with >=1 lint in P and >=1 lint in D. Correspondence: iterators/hull of the model vs TokenStringExt on the Document tokens of every pair and on synthetic kind sequences".into();
     let mut cx = Ctx::new(a.scale(40, 40));
     // the four Unicode facts C12_lex_split rests on (hypotheses of the theorem), on the real `char` methods;
     // is_english_lingual is private: observed through the lexer (a newline is never part of a Word token)
@@ -815,7 +819,7 @@ pub fn run(a: &Args, corpus: &[Value]) {
         synth_case(&mut rep, &cls, zw);
     }
     if a.thorough() {
-        // exhaustive: every sequence of <= 5 kind classes over a representative alphabet of 7
+        // exhaustive: every sequence of <= 6 kind classes over a representative alphabet of 7
         let alpha = ['B', 'N', 'W', '.', ',', 'Q', 'O'];
         let mut count = 0u64;
         for len in 0..=6usize {
